@@ -58,7 +58,7 @@ NextToFeed == PrioOrder[Len(fedSeq) + 1]
 
 Init == \E p \in [Sp -> PopGrid] : Init0(Attr0, p)
 
-MCBegin == \E g \in SupplyGrid, f \in SupplyGrid : BeginMonth([grass |-> g, feed |-> f])
+MCBegin == \E g \in SupplyGrid, f \in SupplyGrid : BeginMonth([grass |-> g, feed |-> f, missing |-> 0])
 
 MCFeed ==
   /\ phase = "feeding" /\ Len(fedSeq) < 3
